@@ -36,6 +36,7 @@ func checkC18(r *core.Run) {
 	c18Modules(r, prog)
 	c18DeclCond(r, prog)
 	c18ListClose(r, prog)
+	c18FreshFlags(r, prog)
 	// K
 	e := newIKEngine(r, prog, "C18")
 	e.run([]string{"pkg/bondmachine", "pkg/procbuilder"}, func(pk *packages.Package, fd *ast.FuncDecl) bool {
